@@ -516,9 +516,10 @@ def run(ctx):
                         'between real and double arithmetic is measured by the oracle (rel 1e-9), not bounded formally',
                         'tiling is PROVED for refine (any non-empty side set), split_column and the triangulation fan (any n) on strictly convex '
                         'counter-clockwise parents (every point of the plane, crossing-number membership; the default centre = centroid meets the '
-                        'hypotheses on the centre node); for decompose_column only multiplicity conservation is unconditional, exactly-one assumes the '
-                        'new columns are positively oriented triangles / convex quadrilaterals (decompose_column_tiles_partial); non-convex parents and '
-                        'the implementation itself are covered by the oracle on sample points',
+                        'hypotheses on the centre node), for decompose_column in every case it distinguishes (centre-based results for any position of the '
+                        'straight nodes given a centre with every side on its left; (5,1), (6,2;d=3), (7,3) in the layouts their guards select) and for '
+                        'every finite sequence of tiling steps (composition); non-convex parents, the numerical detection of straight nodes and the '
+                        'implementation itself are covered by the oracle on sample points',
                         'inheritance of the surface: proved for the model (every new column is created with the parent surface), tied to the code by the '
                         'textual check of `surface=col.surface` and by comparing the surfaces of the implementation children with the model on every case',
                         'conformity is proved per column and per shared side (both neighbours look the same unordered-pair key up in sidenodes and see the '
